@@ -118,7 +118,8 @@ func main() {
 		ne := urlfilter.NewNetworkEngine(st)
 		var wg sync.WaitGroup
 		var mu sync.Mutex
-		const workers, per = 4, 150
+		const workers, per = 4, 700 // 2 800 cold queries: 5 600 distinct host names in the process
+		hotWant := fmt.Sprintf("||n%05d.big.test^$domain=d%05d.test|~x%05d.d%05d.test", 1, 1, 1, 1)
 		for w := 0; w < workers; w++ {
 			wg.Add(1)
 			go func() {
@@ -126,6 +127,16 @@ func main() {
 				for k := 0; k < per; k++ {
 					i := (k*workers+w)*97 % big
 					want := fmt.Sprintf("||n%05d.big.test^$domain=d%05d.test|~x%05d.d%05d.test", i, i, i, i)
+					// a hot query (everything it needs is in memory already) between two cold ones: readers that hit
+					// next to writers that miss
+					if hot := ne.MatchAll(rules.NewRequest("http://n00001.big.test/", "http://d00001.test/", rules.TypeScript)); len(hot) != 1 || hot[0].RuleText != hotWant {
+						mu.Lock()
+						if mismatches < 5 {
+							fmt.Printf("MISMATCH large-working-set lists=%d goroutines=%d: the hot query returned %d rules, sequentially exactly %s\n", nLists, workers, len(hot), hotWant)
+						}
+						mismatches++
+						mu.Unlock()
+					}
 					got := ne.MatchAll(rules.NewRequest(fmt.Sprintf("http://n%05d.big.test/", i), fmt.Sprintf("http://d%05d.test/", i), rules.TypeScript))
 					if len(got) != 1 || got[0].RuleText != want {
 						mu.Lock()
